@@ -72,6 +72,19 @@ func runC01(e *core.Env) {
 	if !sizeKnown {
 		desc.Size = 0
 	}
+	// the descriptor may state a size the content does not have (right digest, wrong size, e.g. a manifest with a
+	// bad size field): "when the descriptor states a size, [the bytes] number exactly that many" - no clean read then
+	stated := n
+	wrongSize := false
+	if sizeKnown && n > 1 && e.Choose("gen", 6, "wrongsize") == 5 {
+		stated = n + []int{1, -1, 7, -(n / 2)}[e.Choose("gen", 4, "sizedelta")]
+		if stated <= 0 || stated == n {
+			stated = n + 1
+		}
+		desc.Size = int64(stated)
+		wrongSize = true
+		e.Probe("descriptor-states-wrong-size")
+	}
 	useLayout := e.Choose("gen", 4, "scheme") == 3
 	overlong := false // the source of the end of the stream visibly carries more bytes than the descriptor states
 	faultFree := e.Choose("gen", 5, "faultfree") == 4
@@ -81,7 +94,7 @@ func runC01(e *core.Env) {
 	var rc *regclient.RegClient
 	ctx := context.Background()
 	var openErr error
-	sample := map[string]any{"len": n, "alg": alg, "size_known": sizeKnown}
+	sample := map[string]any{"len": n, "alg": alg, "size_known": sizeKnown, "stated_size": stated}
 	if useLayout {
 		dir := e.TempDir()
 		sample["scheme"] = "ocidir"
@@ -313,7 +326,7 @@ func runC01(e *core.Env) {
 	simrt.Event("BlobGet len=%d alg=%s sizeKnown=%v plan=%v -> openErr=%v", n, alg, sizeKnown, plan, openErr)
 	if openErr != nil {
 		e.Probe("open-failed")
-		if faultFree {
+		if faultFree && !wrongSize {
 			e.Violation("vacuity", "faultfree-open-failed", "fault-free BlobGet failed: %v", openErr)
 		}
 		return
@@ -390,8 +403,8 @@ func runC01(e *core.Env) {
 		got := regmodel.Digest(alg, delivered)
 		if got != dig {
 			e.Violation("integrity", "clean-read-wrong-digest", "read ended with a bare io.EOF after %d bytes hashing to %s, descriptor digest %s (plan %v, mode %v)", len(delivered), short(got), short(dig), plan, sample["read_mode"])
-		} else if sizeKnown && len(delivered) != n {
-			e.Violation("integrity", "clean-read-wrong-size", "read ended cleanly with %d bytes, descriptor size %d", len(delivered), n)
+		} else if sizeKnown && len(delivered) != stated {
+			e.Violation("integrity", "clean-read-wrong-size", "read ended cleanly with %d bytes, descriptor size %d (plan %v, mode %v)", len(delivered), stated, plan, sample["read_mode"])
 		}
 		// an over-long stream ends in an error: the response (or stored file) the end of the stream came from
 		// carried bytes beyond the stated size, visibly (its announced length included them)
@@ -403,7 +416,7 @@ func runC01(e *core.Env) {
 		}
 	} else {
 		e.Probe("error-read")
-		if faultFree {
+		if faultFree && !wrongSize {
 			e.Violation("vacuity", "faultfree-read-failed", "fault-free read of a well-formed blob failed: %v", endErr)
 		}
 	}
